@@ -287,6 +287,10 @@ def scenarios(ctx):
         scs.append({"kind": "bxmol", "seed": rng.randrange(1 << 30), "mode": mode, "nsmp": nsmp,
                     "chroms": [_kinds(rng, _multiallelic(rng, _bx_world(rng, nsmp), rng.choice([0, 0, 0.2])), mode)
                                for _ in range(rng.randint(1, 2))]})
+    # haplotagphase --only-indels: fewer sites are newly phased, everything else must hold unchanged
+    for sc_ in scs:
+        if sc_["kind"] in ("rand", "gen") and rng.random() < 0.3:
+            sc_["only_indels"] = True
     if not no_hazard:
         bundle(hazard if not q else hazard[:40], "hazard:prephased_uncovered", 8)
     ctx.notes["scenario_kinds"] = {k: sum(1 for s in scs if s["kind"] == k) for k in sorted({s["kind"] for s in scs})}
@@ -447,7 +451,8 @@ def drive(sc):
         # 3. haplotagphase
         try:
             wpath = os.path.join(d, "w.vcf")
-            run_haplotagphase(variant_file=u, alignment_file=tagged, reference=fasta, output=wpath)
+            run_haplotagphase(variant_file=u, alignment_file=tagged, reference=fasta, output=wpath,
+                              only_indels=bool(sc.get("only_indels")))
             Wp = _project_vcf(wpath, nsmp, site_index, intern)
             events.append({"ev": "HaplotagPhase", "w": Wp, "exc": ""})
         except Exception as e:
